@@ -25,7 +25,7 @@
      missing / extra entries and shared blobs); the executable form of the statement is evaluated
      by the check on every generated case, on the model and on the real code. *)
 From Verif.Base Require Import Tactics.
-From Verif.C14 Require Import Model Extracted Witness Proofs Proofs2 Proofs3 Exact1 Exact2 Exact3 Exact4 Exact5 Exact6 Exact7 Exact8 Order Merge Merge2 Merge3.
+From Verif.C14 Require Import Model Extracted Witness Proofs Proofs2 Proofs3 Exact1 Exact2 Exact3 Exact4 Exact5 Exact6 Exact7 Exact8 Order Merge Merge2 Merge3 Contents2 Plan2.
 Local Open Scope N_scope.
 
 (* No path outside the destination — nor the destination root itself — is created, modified or
@@ -310,3 +310,47 @@ Example tree_hyps :
   NoDup (map fst worldY) /\ dirs_ok droot0 worldY /\
   (forall x, In x (flat_list [] snapY) -> fs_get worldY (Pn droot0 x) = None).
 Proof. exact exampleY_tree_hyps. Qed.
+
+(* (3) the plan invariant with REAL match flags and the contents phase over it (strongest form
+   landed; the assembly with the merge-walk into restore_exact for destinations with entries at
+   snapshot paths is the remaining part of G1', see NOTES.md). *)
+
+(* add_file for a path that holds nothing, a file of another size, or a file of the snapshot's size
+   that gets compared (non-empty; verify_existing or another mtime): GPlanInv is kept — names,
+   lengths, preexisting flags; every location is blob k of its file at the blob's offset, and its
+   `matches` flag is only set if the existing file has the snapshot's size and holds the blob
+   there; every blob has a location. *)
+Theorem add_file_plan_correct : forall o droot s pl (gfiles : list gfileT) l blobs size mt base,
+  GPlanInv pl gfiles -> consistent (map fst (gfiles ++ [((l, blobs), base)])) ->
+  size = N.of_nat (blen blobs) -> planned o s (droot ++ l) size mt base ->
+  GPlanInv (add_file o droot s pl (np l) blobs size mt) (gfiles ++ [((l, blobs), base)]).
+Proof. exact add_file_general. Qed.
+Print Assumptions add_file_plan_correct.
+Example add_file_plan_correct_hyps :
+  GPlanInv plan0 [] /\ planned (mkO false true false) worldY (droot0 ++ [0%N]) 1 1000 (Some [5%N]) /\
+  planned (mkO false false false) worldY (droot0 ++ [5%N]) 3 1000 None.
+Proof.
+  split; [exact GPlanInv0|]. split.
+  - eapply pl_compared; [reflexivity|reflexivity|discriminate|left; reflexivity].
+  - apply pl_absent. reflexivity.
+Qed.
+
+(* restore_contents over such a plan (needs the sparse repair: c_sparse_pre): Ok; set_length once per
+   file (a pre-existing file keeps its old bytes, resized); locations flagged `matches` are not
+   written; an entry with a matching location is read from that existing file (from_file: the read
+   returns the blob because a flagged region is never made wrong) and written to the other files;
+   holes only in files created by this restore; afterwards every planned file is the concatenation
+   of its blobs and nothing else changed. *)
+Theorem restore_contents_writes_plan : forall c o droot (gfiles : list gfileT) s0 pl,
+  c_sparse_pre c = true -> files_ok (map fst gfiles) -> GPlanInv pl gfiles ->
+  dirs_ok droot s0 -> parents_ok droot (map fst gfiles) s0 -> (forall g, In g gfiles -> gstate0 droot s0 g) ->
+  exists s' reads, restore_contents c o droot s0 pl = (OOk, s', reads) /\ dirs_ok droot s' /\
+    (forall g, In g gfiles -> exists mt mo, fs_get s' (P droot (fst g)) = Some (EFile (econt (snd (fst g))) mt mo)) /\
+    (forall q, (forall g, In g gfiles -> q <> P droot (fst g)) -> fs_get s' q = fs_get s0 q).
+Proof. exact restore_contents_of_plan. Qed.
+Print Assumptions restore_contents_writes_plan.
+Example restore_contents_writes_plan_hyps : c_sparse_pre code_cfg = true /\ files_ok (map fst (@nil gfileT)) /\ GPlanInv plan0 [].
+Proof.
+  split; [reflexivity|]. split; [|exact GPlanInv0].
+  constructor; [constructor|intros f []|intros f f' b b' []].
+Qed.
